@@ -143,6 +143,7 @@ def body(ctx, replay=None):
         for sub, v in res[:-1]:
             c.record(sub, v, {"feature": sub.get("feature"), "template": sub.get("template"), "formatter": sub.get("formatter"), "placement": sub.get("placement")})
         sub, v = res[-1]
+        sub = dict(sub)
         case.clear()
         case.update(sub)
         return v
